@@ -487,11 +487,13 @@ theorem parse_comp_roundtrip (names : List Str) (c : Comp) (hne : names ≠ [])
   have hcol : ':' ∉ joinNames names := colon_not_mem_join names fun n hn => (hg n hn).2
   unfold parseComp showComp
   rw [lastColon_split _ _ h3]
+  have hbad := badObjList_split (joinNames names) (compValueStr c) (joinNames_ne_nil names hne fun n hn => (hg n hn).1)
+    (joinNames_getLast names hne fun n hn => (hg n hn).1)
   have ht : List.take (joinNames names).length (joinNames names ++ ':' :: compValueStr c) = joinNames names := by simp
   have hdr : List.drop ((joinNames names).length + 1) (joinNames names ++ ':' :: compValueStr c) = compValueStr c := by
     rw [← List.drop_drop]; simp
   have hemp : (compValueStr c).isEmpty = false := by cases hx : compValueStr c <;> simp_all
-  simp only [ht, hdr, namesLoop_join names hne fun n hn => (hg n hn).1, hemp, h1, h2, if_true, Bool.false_eq_true, if_false]
+  simp only [hbad, ht, hdr, namesLoop_join names hne fun n hn => (hg n hn).1, hemp, h1, h2, if_true, Bool.false_eq_true, if_false]
   have hcnt : countCommas (joinNames names ++ ':' :: compValueStr c) = names.length - 1 := by
     unfold countCommas
     rw [List.count_append, List.count_cons, count_joinNames names hne fun n hn => (hg n hn).1.2.1,
@@ -503,9 +505,10 @@ theorem parse_comp_roundtrip (names : List Str) (c : Comp) (hne : names ≠ [])
 
 example : parseComp (showComp ["grp/a".toList, "b".toList] ⟨COMP_CODE_DEFLATE, 6⟩) = some (2, ["grp/a".toList, "b".toList], ⟨4, 6⟩) := by decide +kernel
 
-/-- a chunk request the usage text describes: `NONE`, or 1..32 lengths, each 1 .. 99 999 999 -/
+/-- a chunk request the usage text describes: `NONE`, or 1..32 (`H4_MAX_VAR_DIMS`) lengths, each 1 .. 99 999 999 -/
 def GoodChunk (ck : Chunk) : Prop :=
-  (ck.rank = -2 ∧ ck.lens = []) ∨ (ck.lens ≠ [] ∧ ck.rank = (ck.lens.length : Nat) ∧ ∀ n ∈ ck.lens, 1 ≤ n ∧ n < 10 ^ 8)
+  (ck.rank = -2 ∧ ck.lens = []) ∨
+  (ck.lens ≠ [] ∧ ck.lens.length ≤ H4_MAX_VAR_DIMS ∧ ck.rank = (ck.lens.length : Nat) ∧ ∀ n ∈ ck.lens, 1 ≤ n ∧ n < 10 ^ 8)
 
 theorem joinDims_chars : ∀ (l : List Nat), ':' ∉ joinDims l ∧ ',' ∉ joinDims l := by
   intro l
@@ -525,23 +528,25 @@ theorem parse_chunk_roundtrip (names : List Str) (ck : Chunk) (hne : names ≠ [
     parseChunk (showChunk names ck) = some (names.length, names, ck) := by
   have hval : chunkValue (chunkValueStr ck) [] [] = some ck ∧ ':' ∉ chunkValueStr ck ∧ ',' ∉ chunkValueStr ck ∧ chunkValueStr ck ≠ [] := by
     obtain ⟨r, l⟩ := ck
-    rcases hc with ⟨h1, h2⟩ | ⟨h1, h2, h3⟩ <;> simp only at h1 h2
+    rcases hc with ⟨h1, h2⟩ | ⟨h1, hroom, h2, h3⟩ <;> simp only at h1 h2
     · subst h1; subst h2; decide
     · subst h2
       have hr : ¬ ((l.length : Int) = -2) := by omega
       simp only [chunkValueStr, hr, if_false]
-      have := chunkValue_joinDims l [] h1 h3
+      have := chunkValue_joinDims l [] h1 h3 (by simpa using hroom)
       simp only [List.nil_append] at this
       exact ⟨this, (joinDims_chars l).1, (joinDims_chars l).2, joinDims_ne_nil l h1⟩
   obtain ⟨h1, h3, h4, h5⟩ := hval
   have hcol : ':' ∉ joinNames names := colon_not_mem_join names fun n hn => (hg n hn).2
   unfold parseChunk showChunk
   rw [lastColon_split _ _ h3]
+  have hbad := badObjList_split (joinNames names) (chunkValueStr ck) (joinNames_ne_nil names hne fun n hn => (hg n hn).1)
+    (joinNames_getLast names hne fun n hn => (hg n hn).1)
   have ht : List.take (joinNames names).length (joinNames names ++ ':' :: chunkValueStr ck) = joinNames names := by simp
   have hdr : List.drop ((joinNames names).length + 1) (joinNames names ++ ':' :: chunkValueStr ck) = chunkValueStr ck := by
     rw [← List.drop_drop]; simp
   have hemp : (chunkValueStr ck).isEmpty = false := by cases hx : chunkValueStr ck <;> simp_all
-  simp only [ht, hdr, namesLoop_join names hne fun n hn => (hg n hn).1, hemp, h1, Bool.false_eq_true, if_false]
+  simp only [hbad, ht, hdr, namesLoop_join names hne fun n hn => (hg n hn).1, hemp, h1, Bool.false_eq_true, if_false]
   have hcnt : countCommas (joinNames names ++ ':' :: chunkValueStr ck) = names.length - 1 := by
     unfold countCommas
     rw [List.count_append, List.count_cons, count_joinNames names hne fun n hn => (hg n hn).1.2.1,
